@@ -641,6 +641,10 @@ func stateRules(c *Ctx) {
 		swappedArguments(c, g, short1)
 		globalBacking(c, g, short1)
 		goSharedScratch(c, g, short1)
+		// ---- marks left in a pooled table; a memo split over two atomics; a predicate that edits its subject
+		poolArrayMarks(c, g, short1)
+		atomicPair(c, g, short1)
+		predicateWritesArgument(c, g, short1)
 	}
 	// parsers that link features to a local Sequence (shared by C01, C14, C15)
 	switch c.Prop {
@@ -2840,6 +2844,179 @@ func goSharedScratch(c *Ctx, g *ssa.Function, short1 string) {
 			}
 			if writesFromStart(h, k, 0) {
 				c.bad("STATE", "go-shared-scratch:"+short1, gi.Pos(), fmt.Sprintf("%s hands the same buffer to every goroutine it starts (%s, argument %d), and each of them re-slices it from the start and appends: goroutines that run side by side build their data in the same bytes", short1, fname(h), k+1))
+				return
+			}
+		}
+	})
+}
+
+// poolArrayMarks: a pooled table (pointer to an array) in which the function only ever SETS marks (stores one
+// non-zero constant at data-dependent positions) and then reads positions, without ever clearing a mark or
+// the whole table: the marks of an earlier use (for another alphabet, another key set) are still there.
+func poolArrayMarks(c *Ctx, g *ssa.Function, short1 string) {
+	for _, objs := range pooledObjects(g) {
+		pt, isPtr := objs[0].Type().Underlying().(*types.Pointer)
+		if !isPtr {
+			continue
+		}
+		if _, isArr := pt.Elem().Underlying().(*types.Array); !isArr {
+			continue
+		}
+		marks, reads, clears := 0, 0, 0
+		var firstMark ssa.Instruction
+		other := false
+		for _, o := range objs {
+			if o.Referrers() == nil {
+				continue
+			}
+			for _, r := range *o.Referrers() {
+				switch x := r.(type) {
+				case *ssa.IndexAddr:
+					if x.Referrers() == nil {
+						continue
+					}
+					for _, rr := range *x.Referrers() {
+						switch y := rr.(type) {
+						case *ssa.Store:
+							k, isC := y.Val.(*ssa.Const)
+							switch {
+							case isC && k.Value != nil && (k.Value.ExactString() == "false" || k.Value.ExactString() == "0"):
+								clears++
+							case isC && k.Value != nil:
+								if _, idxConst := x.Index.(*ssa.Const); !idxConst {
+									marks++
+									if firstMark == nil {
+										firstMark = y
+									}
+								}
+							default:
+								other = true // computed values: a table that is filled, not marked
+							}
+						case *ssa.UnOp:
+							reads++
+						}
+					}
+				case *ssa.Store:
+					if x.Addr == o {
+						clears++ // *table = [N]T{}
+					}
+				case *ssa.UnOp, *ssa.MakeInterface, *ssa.DebugRef:
+				case ssa.CallInstruction:
+					if n := calleeName(x); n != "(*sync.Pool).Put" {
+						other = true // handed on (a clearing helper, perhaps)
+					}
+				default:
+					other = true
+				}
+			}
+		}
+		if marks > 0 && reads > 0 && clears == 0 && !other {
+			c.bad("STATE", "pool-content:"+short1, firstMark.Pos(), fmt.Sprintf("%s marks positions in a pooled table and then looks positions up, but never clears a mark or the table: the marks left by an earlier use (another alphabet, another set) are still set, so the answer depends on what was asked before", short1))
+		}
+	}
+}
+
+// atomicPair: what one call remembers is kept in two separate package-level atomic values (the key in one, the
+// answer in the other): each is updated atomically, the pair is not, so a reader can combine one call's key
+// with another call's answer.
+func atomicPair(c *Ctx, g *ssa.Function, short1 string) {
+	tb := newTB(g)
+	stored, loaded := map[*ssa.Global]ssa.Instruction{}, map[*ssa.Global]bool{}
+	eachInstr(g, func(i ssa.Instruction) {
+		ci, ok := i.(ssa.CallInstruction)
+		if !ok || len(ci.Common().Args) == 0 {
+			return
+		}
+		n := calleeName(ci)
+		if !strings.HasPrefix(n, "(*sync/atomic.") {
+			return
+		}
+		gl := globalRoot(ci.Common().Args[0])
+		if gl == nil {
+			if x, isG := ci.Common().Args[0].(*ssa.Global); isG {
+				gl = x
+			}
+		}
+		if gl == nil {
+			return
+		}
+		switch {
+		case strings.HasSuffix(n, ").Store") || strings.HasSuffix(n, ").Swap"):
+			if len(ci.Common().Args) >= 2 {
+				if d, _ := dependsOnArgs(tb.T(unwrapIface(ci.Common().Args[1]))); d {
+					stored[gl] = i
+				}
+			}
+		case strings.HasSuffix(n, ").Load"):
+			loaded[gl] = true
+		}
+	})
+	both := 0
+	var at ssa.Instruction
+	var names []string
+	for gl, in := range stored {
+		if loaded[gl] {
+			both++
+			names = append(names, gl.Name())
+			if at == nil || in.Pos() < at.Pos() {
+				at = in
+			}
+		}
+	}
+	sort.Strings(names)
+	if both >= 2 {
+		c.bad("STATE", "atomic-pair:"+short1, at.Pos(), fmt.Sprintf("%s keeps what it remembers of a call in %d separate package-level atomic values (%s), read and written one after the other: each is atomic, the combination is not, so overlapping calls can pair one call's key with another call's value", short1, both, strings.Join(names, ", ")))
+	}
+}
+
+// predicateWritesArgument: a function that only answers yes or no overwrites the elements of the slice it
+// was asked about, and the caller goes on using that slice.
+func predicateWritesArgument(c *Ctx, g *ssa.Function, short1 string) {
+	eachInstr(g, func(i ssa.Instruction) {
+		cl, ok := i.(*ssa.Call)
+		if !ok {
+			return
+		}
+		h := cl.Call.StaticCallee()
+		if h == nil || !inModule(h) || h.Blocks == nil || h == g {
+			return
+		}
+		res := h.Signature.Results()
+		if res.Len() != 1 || tname(res.At(0).Type()) != "bool" {
+			return
+		}
+		for k, a := range cl.Call.Args {
+			if _, isSlice := a.Type().Underlying().(*types.Slice); !isSlice || k >= len(h.Params) {
+				continue
+			}
+			// h stores into elements of its k-th parameter
+			writes := false
+			p := h.Params[k]
+			if p.Referrers() != nil {
+				for _, r := range *p.Referrers() {
+					if ia, isIA := r.(*ssa.IndexAddr); isIA && ia.X == ssa.Value(p) && ia.Referrers() != nil {
+						for _, rr := range *ia.Referrers() {
+							if st, isSt := rr.(*ssa.Store); isSt && st.Addr == ssa.Value(ia) {
+								writes = true
+							}
+						}
+					}
+				}
+			}
+			if !writes || a.Referrers() == nil {
+				continue
+			}
+			var later ssa.Instruction
+			for _, r := range *a.Referrers() {
+				if _, isDbg := r.(*ssa.DebugRef); isDbg || r == ssa.Instruction(cl) {
+					continue
+				}
+				if domInstr(cl, r) && (later == nil || r.Pos() < later.Pos()) {
+					later = r
+				}
+			}
+			if later != nil {
+				c.bad("STATE", "predicate-writes-argument:"+short1, cl.Pos(), fmt.Sprintf("%s asks %s a yes/no question about a slice and goes on using the slice (at %s), but %s overwrites the slice's elements while it works: what is read afterwards is no longer what was passed in", short1, fname(h), c.W.pos(later.Pos()), fname(h)))
 				return
 			}
 		}
